@@ -34,6 +34,7 @@ func (e *Engine) timeModel(st *State, callee *ssa.Function, name, full string, a
 			t := e.declScalar(fmt.Sprintf("time.Now@%d", e.nowSeq), 64)
 			// non-negative and non-decreasing
 			e.addPC(st, b.Sle(b.BV(64, 0), t))
+			e.addPC(st, b.Sle(t, b.BV(64, 1<<62))) // far from the int64 limits: no wrap-around in Add/Sub
 			if st.lastNow != nil {
 				e.addPC(st, b.Sle(st.lastNow, t))
 			}
